@@ -1241,7 +1241,7 @@ def history_case(ctx, case):
 # ---------------------------------------------------------------- names and symbols (extension round 2: Composite.buildN / exprText)
 # `name` is the key under which System / ObservableEvaluator report an observable (C13, C17), `symbol` what str() shows.  The model
 # (Composite.buildN, Observables.Builtin.names) is compared with the real objects EXACTLY; the specification side (exprText,
-# C16_name_of_build) is re-stated independently in `py_expr_text`.  C16's own text does not speak about names: aux level here; the
+# C16_name_of_build) is re-stated independently in `py_expr_text`.  C16's own text does not speak about names: recorded only (ctx.info, audit 3) here; the
 # keys of System.statistics / the evaluator's columns are compared at property level by harness/c13.py and harness/c17.py.
 NAME_THEOREM = "C16_name_of_build, C16_named_build_is_build"
 
@@ -1398,15 +1398,19 @@ def name_case(ctx, case):
     if has_negative_zero(obj):
         ctx.count("names:skipped (a float -0.0 operand: not denotable by the integer carrier)")
         return
-    impl = {"name": obj.name, "symbol": obj.symbol, "repr": repr(obj), "str": str(obj)}
+    try:    # audit 3 (B1): name / symbol / repr / str are not constrained by C16: reading them must not crash the check
+        impl = {"name": obj.name, "symbol": obj.symbol, "repr": repr(obj), "str": str(obj)}
+    except Exception as e:  # noqa: BLE001
+        ctx.info(f"{sig}/name: name / symbol / repr / str of the composite can be read", type(e).__name__, None)
+        return
     for tg in stats_of(expr)["tags"]:
         ctx.count("names:op=" + tg)
     # ---- the specification, independently (the library's strings are a function of the expression tree)
     if not ct:
         want = {"name": py_expr_text(expr, leaftexts, True)[0], "symbol": py_expr_text(expr, leaftexts, False)[0]}
         want["repr"], want["str"] = want["name"], want["symbol"]
-        ctx.point("composite name / symbol / repr / str == text of the expression (independent re-statement)", "aux", impl, want, case,
-                  exact=True, theorem=NAME_THEOREM, sig=f"{sig}/spec")
+        # audit 3 (B1): what an observable is CALLED (name / symbol / repr / str) is not constrained by C16 (nor C13 / C17): recorded only
+        ctx.info(f"{sig}/spec: composite name / symbol / repr / str == text of the expression (independent re-statement)", impl, want)
     if ctx.driver is None:
         return
     if ct:
@@ -1414,18 +1418,21 @@ def name_case(ctx, case):
                             name=ct.get("name"), symbol=ct.get("symbol"))
     else:
         m = ctx.driver.call("c16.names", leaves=idents, expr=to_driver(expr, "int"))
-    ctx.point("leaf names and symbols (class-name default, setters, built-in constants)", "aux", [list(t) for t in leaftexts], m["leaves"], case,
-              exact=True, theorem=NAME_THEOREM, sig=f"{sig}/leaves")
+    # audit 3 (B1): names / symbols of leaves and composites are beyond the property (C16 constrains values and rejections only): info
+    ctx.info(f"{sig}/leaves: leaf names and symbols (class-name default, setters, built-in constants)", [list(t) for t in leaftexts], m["leaves"])
     if m.get("kind") != "obs":
         ctx.point("names: model builds the observable", "aux", "obs", m.get("kind") or m.get("error") or m.get("operand_error"), case, exact=True,
                   sig=f"{sig}/model-kind")
         return
-    ctx.point("composite.name", "aux", impl["name"], m["name"], case, exact=True, theorem=NAME_THEOREM, sig=f"{sig}/name")
-    ctx.point("composite.symbol", "aux", impl["symbol"], m["symbol"], case, exact=True, theorem=NAME_THEOREM, sig=f"{sig}/symbol")
-    ctx.point("repr(composite) is its name, str(composite) its symbol", "aux", [impl["repr"], impl["str"]], [m["name"], m["symbol"]], case,
-              exact=True, theorem=NAME_THEOREM, sig=f"{sig}/repr-str")
-    ctx.point("named object has the structure of the built object", "aux", describe(obj, leaves, "int"), m["tree"], case, exact=True,
-              theorem="C16_named_build_is_build", sig=f"{sig}/tree")
+    # audit 3 (B1): name / symbol / repr / str and the structure reached through the NAMED construction: not constrained by C16 -> info
+    ctx.info(f"{sig}/name: composite.name", impl["name"], m["name"])
+    ctx.info(f"{sig}/symbol: composite.symbol", impl["symbol"], m["symbol"])
+    ctx.info(f"{sig}/repr-str: repr(composite) is its name, str(composite) its symbol", [impl["repr"], impl["str"]], [m["name"], m["symbol"]])
+    try:
+        tree = describe(obj, leaves, "int")     # reads private attributes of the composite: recorded only
+    except Exception as e:  # noqa: BLE001
+        tree = {"describe_failed": type(e).__name__}
+    ctx.info(f"{sig}/tree: named object has the structure of the built object", tree, m["tree"])
     if not ct:
         ctx.point("model name == model exprText", "aux", [m["spec_name"], m["spec_symbol"]], [m["name"], m["symbol"]], case, exact=True,
                   theorem="C16_name_of_build", sig=f"{sig}/model-spec")
